@@ -112,11 +112,25 @@ def gen(rng, tier):
         lay['lms'] = [lm] if lm == 'JSRUN' else [lm, 'JSRUN']
         sc['jsrun'] = True
         lay.pop('ibrun_tpn', None)
+        app = rng.random() < 0.25
         for t in sc['tasks']:
             t['preplaced'] = False
             t.pop('shuffle', None)
             d = t['descr']
-            if lay['gpn'] and d.get('ranks', 1) > 1 and rng.random() < 0.4:
+            if app:
+                # placements made by the application, in the resource set
+                # format this scheduler / launcher pair works with: one set
+                # per rank, or (explicit resource file only - sets by numbers
+                # describe one shape) one set per visited node
+                t['preplaced'] = True
+                t['at'] = 0.0
+                t['rs_group'] = rng.choice(['rank', 'node']) \
+                    if lm == 'JSRUN_ERF' else 'rank'
+                d['gpus_per_rank'] = 0
+                for k in ('ranks_per_node', 'tags', 'lfs_per_rank',
+                          'mem_per_rank'):
+                    d.pop(k, None)
+            elif lay['gpn'] and d.get('ranks', 1) > 1 and rng.random() < 0.4:
                 d['gpus_per_rank'] = rng.choice([0.5, 0.5, 0.25])
     sc['c09'] = True
     sc['preempt'] = 0.0
